@@ -1,1 +1,3 @@
--- root of the proofs library (property theorems live in AtreeProofs/Props/Cxx.lean)
+import AtreeProofs.StorageLemmas
+import AtreeProofs.Props.C14
+import AtreeProofs.Props.C15
